@@ -266,13 +266,17 @@ enum TargetKind {
 impl TargetKind {
     /// Adjust `last_line_count` such that the next draw operation keeps/clears additional lines
     fn adjust_last_line_count(&mut self, adjust: LineAdjust) -> VisualLines {
-        let last_line_count = match self {
+        let (last_line_count, draw_state) = match self {
             Self::Term {
-                last_line_count, ..
-            } => last_line_count,
+                last_line_count,
+                draw_state,
+                ..
+            } => (last_line_count, draw_state),
             Self::TermLike {
-                last_line_count, ..
-            } => last_line_count,
+                last_line_count,
+                draw_state,
+                ..
+            } => (last_line_count, draw_state),
             _ => return VisualLines::default(),
         };
 
@@ -282,10 +286,19 @@ impl TargetKind {
                 count
             }
             LineAdjust::Keep(count) => {
+                // The lines to keep are the topmost bar lines. Blank lines that pad a
+                // bottom-aligned frame sit above them and have to be given up with them.
+                let padding = Ord::min(draw_state.padding, *last_line_count);
                 // No more lines can be kept than are on the screen (none after a clear)
-                let kept = Ord::min(count, *last_line_count);
-                *last_line_count = last_line_count.saturating_sub(kept);
-                kept
+                let kept = Ord::min(count, *last_line_count - padding);
+                if kept == VisualLines::default() {
+                    return kept;
+                }
+                *last_line_count = *last_line_count - padding - kept;
+                draw_state.padding = VisualLines::default();
+                // The padding is now static as well (it may sit between the lines of bars that
+                // were reaped earlier and the lines kept now)
+                kept + padding
             }
         }
     }
@@ -515,6 +528,9 @@ pub(crate) struct DrawState {
     /// True if the previous draw printed nothing: the cursor is then not parked at the end of the
     /// last line but sits at the start of the row below it.
     cursor_below: bool,
+    /// The number of blank lines the previous draw put above the bars to keep them aligned to
+    /// the bottom.
+    padding: VisualLines,
 }
 
 impl DrawState {
@@ -635,6 +651,7 @@ impl DrawState {
 
         term.flush()?;
         *bar_count = real_height + shift;
+        self.padding = shift;
         if printed_any {
             self.cursor_below = false;
         } else if cleared_any {
